@@ -189,7 +189,7 @@ def read_vtk(filename):
                 else:
                     tria = [larr[ii], larr[ii - 1], larr[ii + 1]]
                 tt.append(tria)
-        t = np.array(tt)
+        t = np.array(tt, dtype=int)
     else:
         msg = f"[read: {line} expected POLYGONS or TRIANGLE_STRIPS] --> FAILED\n"
         print(msg)
